@@ -123,7 +123,7 @@ def guards(node):
             elif any(child is s for s in p.orelse):
                 out.append(_norm_guard(p.test, False))
         elif isinstance(p, ast.While):
-            if any(child is s for s in p.body):
+            if any(child is s for s in p.body) and not (isinstance(p.test, ast.Constant) and p.test.value):
                 out.append(_norm_guard(p.test, True))
         elif isinstance(p, ast.IfExp):
             if child is p.body:
